@@ -300,7 +300,7 @@ def replay_behaviour(states, consts, rng, horizon, strict=True):
 # ---------------------------------------------------------------------------
 # 3. code -> spec: seeded scenarios on the real code
 
-def pick_cfg(rng, tier, n=None, scripted=False):
+def pick_cfg(rng, tier, n=None, scripted=False, window_ok=True):
     """A configuration inside the premise (2D < ack timeout) whose completeness bound stays affordable."""
     for _ in range(200):
         nn = n or rng.choice((3, 3, 3, 4, 4, 5, 6))
@@ -315,11 +315,18 @@ def pick_cfg(rng, tier, n=None, scripted=False):
             return cfg
         I = rng.choice((200_000, 300_000, 400_000, 500_000, 1_000_000, 250_000))
         thr = rng.choice((0.5, 1.0, 1.0, 2.0, 2.0, 4.0, 8.0, 8.0, 12.0))
+        window = None
+        if window_ok and rng.random() < 0.25:
+            # small detector window + (see pick_stop) a stop after the window has overflowed many times
+            nn = n or rng.choice((3, 3, 4))
+            thr = rng.choice((0.5, 1.0, 2.0, 4.0))
+            window = rng.choice((2, 3, 5, 8))
         half = I // 2
         D = rng.choice((0, 1, half // 50, half // 10, half // 4, (half - 1) // 2))
         S = rng.choice((I * 3 // 10, I * 7 // 10, I + 1, I * 17 // 10, I * 3, I * 6, I * 10))
         try:
-            cfg = W.Cfg(nn, I, S, rng.choice((1, 2, 3)), D, 1000, thr=thr, offsets=pick_offsets(rng, nn, I))
+            cfg = W.Cfg(nn, I, S, rng.choice((1, 2, 3)), D, 1000, thr=thr, offsets=pick_offsets(rng, nn, I),
+                        window=window)
         except ValueError:
             continue
         cap = 40 if tier == "quick" else 90
@@ -337,10 +344,17 @@ def pick_offsets(rng, n, I):
     return [rng.randrange(0, I) for _ in range(n)]
 
 
-def pick_stop(rng, cfg):
+def pick_stop(rng, cfg, tier="quick"):
     r = rng.random()
     i = rng.randint(1, cfg.n)
     I = cfg.I
+    if cfg.window and r < 0.85:
+        # late stop: every peer has sent several windows' worth of heartbeats (about 2/(n-1) per round), enough
+        # for window * rounds(Hi) of accumulated history
+        base = max(6, (cfg.window * cfg.Hi * (cfg.n - 1)) // (2 * I))
+        cap = 70 if tier == "quick" else 220
+        rounds = rng.randint(min(cap, max(4, base // 2)), min(cap, 3 * base))
+        return (i, rounds * I + rng.choice((0, 1, cfg.half, rng.randrange(I))))
     if r < 0.25:
         return None
     if r < 0.40:
@@ -400,19 +414,19 @@ DELAYS = {
 
 def cfg_to_json(cfg):
     return {"n": cfg.n, "I": cfg.I, "S": cfg.S, "K": cfg.K, "D": cfg.D, "unit_ns": cfg.unit_ns, "thr": cfg.thr,
-            "Lo": cfg.Lo, "Hi": cfg.Hi, "scripted": cfg.scripted, "offsets": cfg.offsets}
+            "Lo": cfg.Lo, "Hi": cfg.Hi, "scripted": cfg.scripted, "offsets": cfg.offsets, "window": cfg.window}
 
 
 def cfg_from_json(j):
     return W.Cfg(j["n"], j["I"], j["S"], j["K"], j["D"], j["unit_ns"], thr=j["thr"], Lo=j["Lo"], Hi=j["Hi"],
-                 scripted=j["scripted"], offsets=j["offsets"])
+                 scripted=j["scripted"], offsets=j["offsets"], window=j.get("window"))
 
 
 def make_recipe(rng, tier, kind):
     cfg = pick_cfg(rng, tier, scripted=(kind == "world_abstract"))
-    stop = pick_stop(rng, cfg)
+    stop = pick_stop(rng, cfg, tier)
     horizon = (stop[1] + cfg.bound + 3 * cfg.I) if stop else rng.randint(8, 24) * cfg.I
-    inject = pick_inject(rng, cfg, stop, horizon)
+    inject = pick_inject(rng, cfg, stop, horizon) if not cfg.window else []
     return {"kind": kind, "cfg": cfg_to_json(cfg), "stop": stop, "inject": inject, "horizon": horizon,
             "delay": rng.choice(sorted(DELAYS)), "shuffle": rng.choice(("random", "random", "reverse", "sorted", "rotate")),
             "order": rng.choice(("random", "random", "fifo", "lifo")), "sus_bias": rng.choice((0.1, 0.5, 0.9)),
@@ -484,7 +498,57 @@ def phi_trace(rng, tid):
             x = x + step
             sample(x)
         t = max(t, x)       # the next heartbeat comes after the last sample
-    return {"id": tid, "tol": 1, "s": s}
+    return {"id": tid, "tol": 1, "hi": PHI_INF, "s": s}
+
+
+def phi_envelope_trace(rng, tid):
+    """The analytic envelope the membership model relies on, checked on the real detector after many samples:
+    gaps in (0, G], G = (2n-3)I + D as on a healthy network, windows from 2 to 200, up to 1200 heartbeats;
+    afterwards is_available() is queried at and beyond last heartbeat + Hi and phi is sampled in between."""
+    from happysimulator.components.consensus.phi_accrual_detector import PhiAccrualDetector
+    n = rng.choice((3, 4, 5, 6))
+    interval = rng.choice((0.2, 0.25, 0.5, 1.0))
+    delay = interval * rng.choice((0.0, 0.05, 0.2))
+    thr = rng.choice((0.5, 1.0, 2.0, 4.0, 8.0, 12.0))
+    window = rng.choice((2, 5, 20, 200, 200))
+    g = (2 * n - 3) * interval + delay
+    z = W.z_of_threshold(thr)
+    hi_s = g + max(z, 0.0) * max(g / 2, W.MIN_STD)
+    det = PhiAccrualDetector(threshold=thr, max_sample_size=window, initial_interval=interval)
+    US = 10_000
+    style = rng.choice(("max", "uniform", "bimodal", "cycle"))
+    beats = rng.choice((3, 10, 40, 150, 450, 1200))
+    t = rng.choice((0.0, 3.0))
+    s = []
+    det.heartbeat(t)                    # what start() records
+    s.append({"k": 0, "t": int(round(t * US)), "v": 0})
+    for h in range(beats):
+        gap = {"max": g, "uniform": rng.uniform(0.001, g), "bimodal": rng.choice((0.001, g)),
+               "cycle": g if h % (n - 1) == 0 else interval * rng.uniform(0.05, 1.0)}[style]
+        t += gap
+        det.heartbeat(t)
+    s = [{"k": 0, "t": int(round(t * US)), "v": 0}]     # only the last heartbeat matters to the monitor
+    slack = 3.0 / US
+    for f in (0.3, 0.7):
+        x = t + hi_s * f
+        s.append({"k": 1, "t": int(round(x * US)), "v": phi_int(det.phi(x))})
+    for f in (1.0, 1.5, 4.0):
+        x = t + hi_s * f + slack
+        s.append({"k": 2, "t": int(math.ceil(x * US)), "v": 1 if det.is_available(x) else 0})
+    return {"id": tid, "tol": 1, "hi": int(math.ceil(hi_s * US)) + 1, "beats": beats + 1, "s": s}
+
+
+def late_default_recipe(rng):
+    """Thorough: the protocol's own detectors (window 200) with a stop after the window has overflowed several
+    times (3 nodes, 0.2 s interval, low thresholds: about one heartbeat per peer and round)."""
+    thr = rng.choice((1.0, 2.0))
+    cfg = W.Cfg(3, 200_000, rng.choice((140_000, 600_000)), rng.choice((1, 2)), rng.choice((0, 5_000, 40_000)), 1000,
+                thr=thr, offsets=[0, 0, 0])
+    rounds = rng.randint(200 * (cfg.Hi // cfg.I + 2), 200 * (cfg.Hi // cfg.I + 5))
+    stop = (rng.randint(1, 3), rounds * cfg.I + rng.randrange(cfg.I))
+    return {"kind": "sim", "cfg": cfg_to_json(cfg), "stop": stop, "inject": [], "horizon": stop[1] + cfg.bound + 3 * cfg.I,
+            "delay": rng.choice(sorted(DELAYS)), "shuffle": "random", "order": "random", "sus_bias": 0.5,
+            "seed": rng.randrange(1 << 30)}
 
 
 def phi_trace_from_sim(w, tid, rng):
@@ -505,7 +569,7 @@ def phi_trace_from_sim(w, tid, rng):
     for _ in range(40):
         x = x + span * rng.choice((0.0, 0.002, 0.01, 0.05, 0.2))
         s.append({"k": 1, "t": int(round(x * 1e6)), "v": phi_int(det.phi(x))})
-    return {"id": tid, "tol": 1, "s": s}
+    return {"id": tid, "tol": 1, "hi": PHI_INF, "s": s}
 
 
 # ---------------------------------------------------------------------------
@@ -621,6 +685,12 @@ def run(tier, seed, replay=None):
         add(run_recipe(rec), "direct-drive/abstract-detector", rec)
     for k in range(400 if quick else 6000):
         phi_traces.append(phi_trace(rng, len(phi_traces) + 1))
+    for k in range(150 if quick else 1500):
+        phi_traces.append(phi_envelope_trace(rng, len(phi_traces) + 1))
+    if not quick:
+        for k in range(3):
+            rec = late_default_recipe(rng)
+            add(run_recipe(rec), "simulation/late-stop", rec)
     # validation of these executions starts now, next to the model-checking jobs
     first = [traces[k] for k in sorted(traces)]
     val1 = pool.submit(validate_swim, first, dev, "C13_trace_a", None, 25_000 if quick else 60_000)
